@@ -174,6 +174,7 @@ def gen_iterators(g, thorough):
     for n in range(1, 7 if thorough else 6):
         for k in range(1, n + 1):
             g.op("OSP", n, k)
+            g.op("OSPI", n, k)
     for k in range(1, 5 if thorough else 4):
         for b in itertools.product(range(0, 4 if thorough else 3), repeat=k):
             for n in range(1, sum(b) + 1):
